@@ -279,6 +279,9 @@ const FRAGS: &[Frag] = &[
     Frag { feature: "memory64", types: "", imports: "", multi_memory: true,
       body: "(memory $m64# i64 1 3) (func $m64#a (result i64) (i64.store $m64# offset=4294967296 (i64.const 0) (i64.const 1)) (drop (memory.grow $m64# (i64.const 0))) (memory.fill $m64# (i64.const 0) (i32.const 1) (i64.const 2)) (memory.size $m64#))
              (data (memory $m64#) (i64.const 16) \"sixty-four\")" },
+    f("active-data-ops", "(type $ada# (array (mut i8)))", "",
+      "(data $ad# (i32.const 32) \"active\")
+       (func $ad#f (result (ref $ada#)) (memory.init $ad# (i32.const 0) (i32.const 0) (i32.const 0)) (data.drop $ad#) (array.new_data $ada# $ad# (i32.const 0) (i32.const 0)))"),
     f("start", "", "", "(func $st#) (start $st#)"),
     f("names", "(type $nm#t (func (param $named_param i32) (result i32)))", "",
       "(func $nm#f (type $nm#t) (local $named_local i64) (block $named_label (loop $inner_label (br $named_label))) (local.get 0))
@@ -286,7 +289,7 @@ const FRAGS: &[Frag] = &[
     f("custom", "", "", "(@custom \"zoo#\" \"\\00payload\\ff\") (@custom \"zoo#\" (after code) \"second with the same name\") (@custom \"after-types#\" (after type) \"x\")"),
 ];
 
-fn gen_module(r: &mut Rng) -> (String, bool, Vec<&'static str>) {
+pub fn gen_module(r: &mut Rng) -> (String, bool, Vec<&'static str>) {
     let n = r.range(1, 6);
     let mut types = String::new();
     let mut imports = String::new();
